@@ -55,13 +55,13 @@ func NewNativeFormat(schema physical.Schema) *NativeFormat {
 }
 
 func (n *NativeFormat) WriteRecord(record Record) error {
-	fmt.Fprintf(os.Stdout, record.String()+"\n")
-	return nil
+	_, err := fmt.Fprintf(os.Stdout, record.String()+"\n")
+	return err
 }
 
 func (n *NativeFormat) WriteMeta(message MetadataMessage) error {
-	fmt.Fprintf(os.Stdout, "{~%s}\n", message.Watermark)
-	return nil
+	_, err := fmt.Fprintf(os.Stdout, "{~%s}\n", message.Watermark)
+	return err
 }
 
 func (n *NativeFormat) SetSchema(schema physical.Schema) {
